@@ -1,0 +1,87 @@
+//go:build verif
+
+package libp2p
+
+import (
+	"context"
+
+	pubsub "github.com/libp2p/go-libp2p-pubsub"
+	libp2pcrypto "github.com/libp2p/go-libp2p/core/crypto"
+	"github.com/libp2p/go-libp2p/core/peer"
+
+	"github.com/keep-network/keep-core/pkg/net"
+	"github.com/keep-network/keep-core/pkg/net/gen/pb"
+	"github.com/keep-network/keep-core/pkg/net/retransmission"
+)
+
+// Thin exports for the C16 / C18 verification drivers. No behaviour of their
+// own: the channel is built exactly like channelManager.newChannel builds it,
+// minus the pubsub topic and subscription, which the driver replaces with a
+// publisher function of its own.
+
+// VerifChannel wraps a *channel built without a pubsub topic.
+type VerifChannel struct {
+	c *channel
+}
+
+type verifPublisher func(data []byte) error
+
+func (p verifPublisher) Publish(
+	_ context.Context,
+	data []byte,
+	_ ...pubsub.PubOpt,
+) error {
+	return p(data)
+}
+
+// VerifNewChannel returns a channel whose publisher is the given function and
+// whose retransmissions are driven by the given ticker.
+func VerifNewChannel(
+	name string,
+	privateKey libp2pcrypto.PrivKey,
+	ticker *retransmission.Ticker,
+	publish func(data []byte) error,
+) (*VerifChannel, error) {
+	identity, err := createIdentity(privateKey)
+	if err != nil {
+		return nil, err
+	}
+	return &VerifChannel{&channel{
+		name:                 name,
+		clientIdentity:       identity,
+		publisher:            verifPublisher(publish),
+		incomingMessageQueue: make(chan *pubsub.Message, incomingMessageThrottle),
+		messageHandlers:      make([]*messageHandler, 0),
+		unmarshalersByType:   make(map[string]func() net.TaggedUnmarshaler),
+		retransmissionTicker: ticker,
+	}}, nil
+}
+
+// Channel returns the wrapped channel as a net.BroadcastChannel.
+func (vc *VerifChannel) Channel() net.BroadcastChannel { return vc.c }
+
+// PeerID returns the channel owner's peer ID.
+func (vc *VerifChannel) PeerID() peer.ID { return vc.c.clientIdentity.id }
+
+// ProcessContainerMessage calls channel.processContainerMessage.
+func (vc *VerifChannel) ProcessContainerMessage(
+	proposedSender peer.ID,
+	message *pb.BroadcastNetworkMessage,
+) error {
+	return vc.c.processContainerMessage(proposedSender, message)
+}
+
+// ProcessPubsubMessage calls channel.processPubsubMessage.
+func (vc *VerifChannel) ProcessPubsubMessage(message *pubsub.Message) error {
+	return vc.c.processPubsubMessage(message)
+}
+
+// Deliver calls channel.deliver.
+func (vc *VerifChannel) Deliver(message net.Message) { vc.c.deliver(message) }
+
+// HandlerCount returns the number of registered message handlers.
+func (vc *VerifChannel) HandlerCount() int {
+	vc.c.messageHandlersMutex.Lock()
+	defer vc.c.messageHandlersMutex.Unlock()
+	return len(vc.c.messageHandlers)
+}
